@@ -37,7 +37,7 @@ Record policy := mkPolicy {
   pl_events : list event;       (* Events ++ [Event] *)
   pl_action : action;
   pl_exit : option Z;
-  pl_timeout : bool }.          (* a Timeout is set (duration 0 in every trace) *)
+  pl_timeout : Z }.             (* 0: no Timeout; 1: Timeout of duration 0 (acts at once); 2: a real Timeout (delayed action) *)
 
 Record task := mkTask {
   t_name : positive;
@@ -137,6 +137,19 @@ Definition classify (p : pod) : counts * Z :=
 Definition tally (l : list pod) : counts * Z :=
   fold_right (fun p acc => (cadd (fst (classify p)) (fst acc), snd (classify p) + snd acc)) (c0, 0) l.
 
+(* ---------- delayed actions (policies with a timeout): job_controller.go 411-572 ---------- *)
+Record dtimer := mkTimer {
+  dt_id : Z;                            (* arming sequence number *)
+  dt_pod : option (positive * Z);       (* req.PodName, the key of the controller's per-job map ("" = None) *)
+  dt_event : event;
+  dt_action : action;
+  dt_task : option positive }.
+Record delays := mkDelays {
+  d_map : list dtimer;                  (* delayActionMap[job]: at most one entry per pod name *)
+  d_queue : list (dtimer * bool);       (* every timer armed and not yet expired, oldest first; true = cancelled *)
+  d_next : Z }.
+Definition no_delays : delays := mkDelays [] [] 0.
+
 (* ---------- world ---------- *)
 (* what else the controller's cache / listers know *)
 Record ctl := mkCtl {
@@ -144,8 +157,11 @@ Record ctl := mkCtl {
   c_dirty : bool;    (* the API server's job object changed since the informer last delivered it *)
   c_wdel : bool;     (* the job on the API server has a deletion timestamp *)
   c_vdel : bool;     (* ... and the cached copy shows it *)
-  c_queue : bool }.  (* the job's queue is in the queue lister *)
-Definition ctl_dirty (c : ctl) : ctl := mkCtl (c_job c) true (c_wdel c) (c_vdel c) (c_queue c).
+  c_queue : bool;    (* the job's queue is in the queue lister *)
+  c_delay : delays }.  (* the controller's delayed actions *)
+Definition ctl_dirty (c : ctl) : ctl := mkCtl (c_job c) true (c_wdel c) (c_vdel c) (c_queue c) (c_delay c).
+Definition set_delay (w_ctl : ctl) (d : delays) : ctl :=
+  mkCtl (c_job w_ctl) (c_dirty w_ctl) (c_wdel w_ctl) (c_vdel w_ctl) (c_queue w_ctl) d.
 
 Record world := mkWorld {
   w_spec : spec;  v_spec : spec;          (* job spec: API server / job cache *)
@@ -165,7 +181,7 @@ Definition set_wpg (w : world) (g : option pgphase) : world :=
    the job cache; the informer has a new version of the job to deliver *)
 Definition write (w : world) (s : status) : world :=
   mkWorld (w_spec w) (w_spec w) s s (w_pods w) (v_pods w) (w_pg w) (v_pg w)
-          (mkCtl (c_job (v_ctl w)) true (c_wdel (v_ctl w)) (c_wdel (v_ctl w)) (c_queue (v_ctl w))).
+          (mkCtl (c_job (v_ctl w)) true (c_wdel (v_ctl w)) (c_wdel (v_ctl w)) (c_queue (v_ctl w)) (c_delay (v_ctl w))).
 
 (* ---------- requests ---------- *)
 Inductive fault := FCreate (t : positive) (i : Z) | FDelete (t : positive) (i : Z)
@@ -200,28 +216,29 @@ Definition policy_hit (p : policy) (r : req) : bool :=
    | [], _ => false
    | _, ENone => false
    | evs, e => (event_in e evs || event_in EAny evs) &&
-               (negb (event_beq e EPodPending) || pl_timeout p)
+               (negb (event_beq e EPodPending) || negb (Z.eqb (pl_timeout p) 0))
    end)
   || match pl_exit p with Some c => Z.eqb c (r_exit r) | None => false end.
 
-Fixpoint first_policy (ps : list policy) (r : req) : option action :=
+Fixpoint first_policy (ps : list policy) (r : req) : option (action * bool) :=
   match ps with
   | [] => None
-  | p :: rest => if policy_hit p r then Some (pl_action p) else first_policy rest r
+  | p :: rest => if policy_hit p r then Some (pl_action p, Z.eqb (pl_timeout p) 2) else first_policy rest r
   end.
 
 Definition find_task (sp : spec) (t : positive) : option task :=
   find (fun ts => Pos.eqb (t_name ts) t) (s_tasks sp).
 
-Definition apply_policies (sp : spec) (st : status) (r : req) : action :=
+(* the action and whether it is delayed (delayAct.delay <> 0) *)
+Definition apply_policies_d (sp : spec) (st : status) (r : req) : action * bool :=
   match r_action r with
-  | Some a => a
+  | Some a => (a, false)
   | None =>
-    if is_internal_event (r_event r) then ASync
-    else if Z.eqb (r_uid r) 0 then ASync
-    else if Z.ltb (r_version r) (st_version st) then ASync
+    if is_internal_event (r_event r) then (ASync, false)
+    else if Z.eqb (r_uid r) 0 then (ASync, false)
+    else if Z.ltb (r_version r) (st_version st) then (ASync, false)
     else
-      let joblevel := match first_policy (s_policies sp) r with Some a => a | None => ASync end in
+      let joblevel := match first_policy (s_policies sp) r with Some a => a | None => (ASync, false) end in
       match r_task r with
       | Some t =>
           match find_task sp t with
@@ -231,6 +248,7 @@ Definition apply_policies (sp : spec) (st : status) (r : req) : action :=
       | None => joblevel
       end
   end.
+Definition apply_policies (sp : spec) (st : status) (r : req) : action := fst (apply_policies_d sp st r).
 
 (* ---------- state package : which function, which retain set, which status update ---------- *)
 Inductive retain := RNone | RSoft.
@@ -548,15 +566,111 @@ Definition sync_job_gen (fixed : bool) (w : world) (u : updfn) (F : list fault) 
 Definition sync_job := sync_job_gen true.
 Definition sync_job_prefix := sync_job_gen false.
 
-(* ---------- processNextReq ---------- *)
-Definition step_req (w : world) (r : req) (F : list fault) : world * bool * bool :=
-  if negb (c_job (v_ctl w)) then (w, false, false)   (* cc.cache.Get fails ("job is not ready"): the request is dropped *)
-  else
-  let a := apply_policies (v_spec w) (v_st w) r in
+(* ---------- delayed actions: cancel / arm / clean up ---------- *)
+Definition key_eqb (a b : option (positive * Z)) : bool :=
+  match a, b with
+  | None, None => true
+  | Some (t, i), Some (t', i') => Pos.eqb t t' && Z.eqb i i'
+  | _, _ => false
+  end.
+Definition otask_eqb (a b : option positive) : bool :=
+  match a, b with None, None => true | Some x, Some y => Pos.eqb x y | _, _ => false end.
+
+(* cancel(): the timer never executes; the entry leaves the map *)
+Definition cancel_timer (id : Z) (d : delays) : delays :=
+  mkDelays (filter (fun t => negb (Z.eqb (dt_id t) id)) (d_map d))
+           (map (fun tc => if Z.eqb (dt_id (fst tc)) id then (fst tc, true) else tc) (d_queue d))
+           (d_next d).
+Definition drop_delays (d : delays) : delays :=
+  fold_left (fun acc t => cancel_timer (dt_id t) acc) (d_map d) d.
+
+Definition is_pod_event (e : event) : bool :=
+  match e with EPodPending | EPodRunning | EPodFailed | EPodEvicted => true | _ => false end.
+
+(* CleanPodDelayActionsIfNeed (runs before the job is looked up in the cache) *)
+Definition clean_pod_delay (d : delays) (r : req) : delays :=
+  if is_pod_event (r_event r) && negb (event_beq (r_event r) EPodPending) then
+    match find (fun t => key_eqb (dt_pod t) (r_pod r)) (d_map d) with
+    | Some t =>
+        if event_beq (dt_event t) EPodPending    (* the request's pod uid equals the stored one: same pod name *)
+           || ((event_beq (dt_event t) EPodFailed || event_beq (dt_event t) EPodEvicted) && event_beq (r_event r) EPodRunning)
+        then cancel_timer (dt_id t) d else d
+    | None => d
+    end
+  else d.
+
+(* AddDelayActionForJob: nothing happens when the pod name already has an entry with the same
+   action; otherwise the entry is overwritten -- the overwritten timer keeps running and can no
+   longer be cancelled *)
+Definition add_delay (d : delays) (r : req) (a : action) : delays :=
+  match find (fun t => key_eqb (dt_pod t) (r_pod r)) (d_map d) with
+  | Some t => if action_beq (dt_action t) a then d
+              else let n := mkTimer (d_next d) (r_pod r) (r_event r) a (r_task r) in
+                   mkDelays (n :: filter (fun t => negb (key_eqb (dt_pod t) (r_pod r))) (d_map d))
+                            (d_queue d ++ [(n, false)]) (d_next d + 1)
+  | None => let n := mkTimer (d_next d) (r_pod r) (r_event r) a (r_task r) in
+            mkDelays (n :: d_map d) (d_queue d ++ [(n, false)]) (d_next d + 1)
+  end.
+
+Inductive atype := TJob | TTaskA | TPodA | TPartA.
+Definition action_type (a : action) : atype :=
+  match a with
+  | ARestartTask => TTaskA | ARestartPod => TPodA | ARestartPartition => TPartA | _ => TJob
+  end.
+Definition atype_eqb (x y : atype) : bool :=
+  match x, y with TJob, TJob | TTaskA, TTaskA | TPodA, TPodA | TPartA, TPartA => true | _, _ => false end.
+Definition is_internal_action (a : action) : bool := match a with ASync | AOther => true | _ => false end.
+
+(* cleanupDelayActions: the entries of the same action type (and task / pod) are cancelled and forgotten *)
+Definition cleanup_delays (d : delays) (a : action) (tk : option positive) (pk : option (positive * Z)) : delays :=
+  fold_left (fun acc t =>
+      if atype_eqb (action_type (dt_action t)) (action_type a) &&
+         (match action_type a with
+          | TTaskA => otask_eqb (dt_task t) tk
+          | TPodA => key_eqb (dt_pod t) pk
+          | _ => true
+          end)
+      then cancel_timer (dt_id t) acc else acc)
+    (d_map d) d.
+
+Definition with_delays (w : world) (d : delays) : world :=
+  mkWorld (w_spec w) (v_spec w) (w_st w) (v_st w) (w_pods w) (v_pods w) (w_pg w) (v_pg w) (set_delay (v_ctl w) d).
+
+(* state.NewState(jobInfo).Execute(action) on the CURRENT cache state *)
+Definition execute (w : world) (a : action) (r : req) (F : list fault) : world * bool * bool :=
   match exec (st_phase (v_st w)) a with
   | (KSync, u) => sync_job w u F
   | (KKill rt, u) => kill_pods w rt None u F
   | (KTarget, u) => kill_pods w RNone (Some (target_of a r)) u F
+  end.
+
+(* ---------- processNextReq ---------- *)
+Definition step_req (w : world) (r : req) (F : list fault) : world * bool * bool :=
+  let w0 := with_delays w (clean_pod_delay (c_delay (v_ctl w)) r) in
+  if negb (c_job (v_ctl w0)) then (w0, false, false)   (* cc.cache.Get fails ("job is not ready"): the request is dropped *)
+  else
+  let '(a, delayed) := apply_policies_d (v_spec w0) (v_st w0) r in
+  if delayed then (with_delays w0 (add_delay (c_delay (v_ctl w0)) r a), false, false)
+  else
+    let '(w1, e, wr) := execute w0 a r F in
+    if negb e && negb (is_internal_action a)
+    then (with_delays w1 (cleanup_delays (c_delay (v_ctl w1)) a (r_task r) (r_pod r)), e, wr)
+    else (w1, e, wr).
+
+(* the oldest armed timer expires: unless it was cancelled its action is executed against the
+   cache and the phase as they are NOW; then the delayed actions of its type are cleaned up,
+   whether the execution failed or not *)
+Definition fire (w : world) : world * bool * bool :=
+  match d_queue (c_delay (v_ctl w)) with
+  | [] => (w, false, false)
+  | (t, cancelled) :: rest =>
+      let w0 := with_delays w (mkDelays (d_map (c_delay (v_ctl w))) rest (d_next (c_delay (v_ctl w)))) in
+      if cancelled then (w0, false, false)
+      else if negb (c_job (v_ctl w0)) then (w0, false, false)     (* the entry stays in the map *)
+      else
+        let r := mkReq (dt_event t) None (dt_task t) (dt_pod t) 0 0 1 in
+        let '(w1, e, wr) := execute w0 (dt_action t) r [] in
+        (with_delays w1 (cleanup_delays (c_delay (v_ctl w1)) (dt_action t) (dt_task t) (dt_pod t)), false, wr)
   end.
 
 (* ---------- histories ---------- *)
@@ -573,7 +687,8 @@ Inductive op :=
 | ORestart                                           (* the controller process restarts: empty cache and listers *)
 | OReplaceJob (sp : spec)                            (* the job is deleted and re-created under the same name; its old pods are still around *)
 | OJobDeleting                                       (* the job gets a deletion timestamp *)
-| OStaleJob.                                         (* an older version of the job is delivered after a newer one *)
+| OStaleJob                                          (* an older version of the job is delivered after a newer one *)
+| OFire.                                             (* the oldest pending delayed-action timer expires *)
 
 Definition step (w : world) (o : op) : world * bool * bool :=
   match o with
@@ -588,22 +703,23 @@ Definition step (w : world) (o : op) : world * bool * bool :=
          updateJob (ignored when the resourceVersion did not change) *)
       if c_job (v_ctl w) && negb (c_dirty (v_ctl w)) then (w, false, false)
       else (mkWorld (w_spec w) (w_spec w) (w_st w) (w_st w) (w_pods w) (v_pods w) (w_pg w) (v_pg w)
-                    (mkCtl true false (c_wdel (v_ctl w)) (c_wdel (v_ctl w)) (c_queue (v_ctl w))), false, false)
+                    (mkCtl true false (c_wdel (v_ctl w)) (c_wdel (v_ctl w)) (c_queue (v_ctl w)) (c_delay (v_ctl w))), false, false)
   | OSyncPods => (mkWorld (w_spec w) (v_spec w) (w_st w) (v_st w) (w_pods w) (w_pods w) (w_pg w) (v_pg w) (v_ctl w), false, false)
   | OSyncPg => (mkWorld (w_spec w) (v_spec w) (w_st w) (v_st w) (w_pods w) (v_pods w) (w_pg w) (w_pg w) (v_ctl w), false, false)
   | OSetSpec sp => (mkWorld sp (v_spec w) (w_st w) (v_st w) (w_pods w) (v_pods w) (w_pg w) (v_pg w) (ctl_dirty (v_ctl w)), false, false)
   | ORestart =>
       (mkWorld (w_spec w) (v_spec w) (w_st w) (v_st w) (w_pods w) [] (w_pg w) None
-               (mkCtl false true (c_wdel (v_ctl w)) false (c_queue (v_ctl w))), false, false)
+               (mkCtl false true (c_wdel (v_ctl w)) false (c_queue (v_ctl w)) (drop_delays (c_delay (v_ctl w)))), false, false)
   | OReplaceJob sp =>
       (* deleteJob: cache.Delete drops the Job, keeps the pods; the new job has no status yet and
          its PodGroup name (job name + uid) is new *)
       (mkWorld sp (v_spec w) fresh_status (v_st w) (w_pods w) (v_pods w) None None
-               (mkCtl false true false false (c_queue (v_ctl w))), false, false)
+               (mkCtl false true false false (c_queue (v_ctl w)) (c_delay (v_ctl w))), false, false)
   | OJobDeleting =>
       (mkWorld (w_spec w) (v_spec w) (w_st w) (v_st w) (w_pods w) (v_pods w) (w_pg w) (v_pg w)
-               (mkCtl (c_job (v_ctl w)) true true (c_vdel (v_ctl w)) (c_queue (v_ctl w))), false, false)
+               (mkCtl (c_job (v_ctl w)) true true (c_vdel (v_ctl w)) (c_queue (v_ctl w)) (c_delay (v_ctl w))), false, false)
   | OStaleJob => (w, false, false)   (* cache.Update refuses an older resourceVersion *)
+  | OFire => fire w
   end.
 
 Definition run (w : world) (ops : list op) : world := fold_left (fun w o => fst (fst (step w o))) ops w.
@@ -615,7 +731,7 @@ Fixpoint trace (w : world) (ops : list op) : list (world * bool * bool) :=
   | o :: r => let x := step w o in x :: trace (fst (fst x)) r
   end.
 
-Definition init_ctl (queue : bool) : ctl := mkCtl true false false false queue.
+Definition init_ctl (queue : bool) : ctl := mkCtl true false false false queue no_delays.
 Definition init_world_q (queue : bool) (sp : spec) (st : status) (pods : list pod) (pg : option pgphase) : world :=
   mkWorld sp sp st st pods pods pg pg (init_ctl queue).
 Definition init_world := init_world_q true.
